@@ -41,4 +41,11 @@ PROPS = {
         "level_text": "Machine-checked Lean 4 theorems for every list of five distinct real cards (any order): the flush predicate equals 'all suits equal'; the (repaired) straight predicate equals 'the ranks present are exactly one of the ten straight sets' (kernel pass over all 8,192 masks of the model of count_ones/leading_zeros/trailing_zeros + general testBit lemma); straight-flush and wheel likewise; all agree with the category digit of the hand's strength under the poker specification (kernel pass over the 7,462 classes); the deprecated free functions equal the methods for any five words. The unrepaired predicate is refuted on 6-5-4-2-2.",
         "level_note": "Trusts: Lean kernel; Spec; models of count_ones/leading_zeros/trailing_zeros (documented meaning; compared with the crate through is_straight on every hand); rustc; extractor; driver correspondence (all hands x slot orders, flags included in the bulk enum5 stream).",
     },
+    "C05": {
+        "technique": "Lean 4 proof: induction on fuel for the binary search (every key), popcount sub-additivity + kernel evaluation over 8,192 masks and 7,937 table cells, fold invariant for the best-of loop",
+        "level_text": "Machine-checked Lean 4 theorems about the model of the repaired code, where a panic (bounds check / arithmetic overflow) is the value none: the product search returns an in-range index for EVERY key; every five-, six- and seven-slot entry point returns some value for EVERY hand whose slots are real cards or blanks with any repetition (unbounded statement over all such lists); a five holding a blank has value 0 through every entry point and rank Invalid; the only multiplication stays below 2^32. The pinned (unrepaired) definitions are refuted in Lean on the recorded inputs.",
+        "level_note": "Trusts: Lean kernel; rustc; extractor; the correspondence (all 4,187,106 five-slot multisets over cards+blank, seeded six/seven-slot hands, every table key +-1) run against BOTH a release build and a build with overflow checks. Partial: the model exhibits index and arithmetic panics only; absence of recursion/allocation in the crate is argued, not proved.",
+        "profiles": ["checked"],
+        "assumptions": ["checked and wrapping arithmetic agree because no operation overflows on this domain (proved for the model, observed on both builds)"],
+    },
 }
